@@ -351,6 +351,52 @@ def work_first_bytes(arg):
     return part.dump()
 
 
+def work_declared_lengths(arg):
+    """headers that declare more payload than follows (a proper prefix of some valid message): every header width,
+    declared lengths around the sign bits of 8/16/32-bit fields, followed by 0..40 payload bytes or items."""
+    part = core.Part()
+    m = Mon(part)
+    um = _um()
+    Short = um.InsufficientDataException
+    heads = []
+    for n in (0x7f, 0x80, 0xff):
+        heads += [(b'\xd9' + bytes([n]), 'str8'), (b'\xc4' + bytes([n]), 'bin8'), (b'\xc7' + bytes([n]) + b'\x05', 'ext8')]
+    for n in (0x7fff, 0x8000, 0xffff):
+        b2 = n.to_bytes(2, 'big')
+        heads += [(b'\xda' + b2, 'str16'), (b'\xc5' + b2, 'bin16'), (b'\xc8' + b2 + b'\x05', 'ext16'),
+                  (b'\xdc' + b2, 'arr16'), (b'\xde' + b2, 'map16')]
+    for n in (0x7fffffff, 0x80000000, 0x80000001, 0xc0000000, 0xffffffff):
+        b4 = n.to_bytes(4, 'big')
+        heads += [(b'\xdb' + b4, 'str32'), (b'\xc6' + b4, 'bin32'), (b'\xc9' + b4 + b'\x05', 'ext32'),
+                  (b'\xdd' + b4, 'arr32'), (b'\xdf' + b4, 'map32')]
+    for head, tag in heads:
+        for k in (0, 1, 3, 40):
+            for wrap in (b'', b'\x92\x01'):
+                if tag.startswith('map'):
+                    body = b''.join(bytes([i]) + b'\xc0' for i in range(20))    # distinct keys 0..19, nil values
+                elif tag.startswith('arr'):
+                    body = b'\x01' * 40
+                else:
+                    body = b'abc' * 14
+                data = wrap + head + body[:k]
+                part.case(('declared-length', tag, head.hex(), k, wrap.hex()), nontrivial=True)
+                part.count('truncated_streams_with_large_declared_length')
+                try:
+                    r = um.loads(data)
+                except Short:
+                    continue
+                except MemoryError:
+                    part.count('declared_length_memory_error(not judged)')
+                    continue
+                except Exception as e:
+                    part.violation('prefix-wrong-exception', 'loads(%s.. %s with declared length, %d bytes follow) raised %r, not InsufficientData' % (
+                        data[:12].hex(), tag, k, e), {'kind': 'declared', 'hex': data.hex(), 'tag': tag})
+                    continue
+                part.violation('prefix-accepted', 'loads(%s: %s header declaring more than the %d bytes that follow) returned %s' % (
+                    data[:12].hex(), tag, k, describe(r)), {'kind': 'declared', 'hex': data.hex(), 'tag': tag})
+    return part.dump()
+
+
 SPECIAL_FLOATS = [0.0, -0.0, 1.0, -1.0, float('inf'), float('-inf'), float('nan'), 1e308, 5e-324, 2.0 ** -126,
                   1.5, 3.4028234663852886e38, 0.1, -123456.789]
 
@@ -442,7 +488,8 @@ def work_random(arg):
 
 
 def main(run):
-    tasks = [('vf.props.c14:work_ints', [0]), ('vf.props.c14:work_first_bytes', [0]), ('vf.props.c14:work_special', [0])]
+    tasks = [('vf.props.c14:work_ints', [0]), ('vf.props.c14:work_first_bytes', [0]), ('vf.props.c14:work_special', [0]),
+             ('vf.props.c14:work_declared_lengths', [0])]
     lens = boundary_lengths(run.tier)
     len_args = [[k, n, run.pick(24, 400)] for k in ('str', 'bin', 'ext', 'arr', 'map') for n in lens]
     # payloads beyond every plausible internal buffer or chunk size (cuts inside the payload, at its ends and strided)
@@ -463,6 +510,7 @@ def main(run):
     run.extra['enumerated'] = {
         'integers': 'every integer within +-3 of +-2^k for k in %s, plus -40..39; each in every legal int format' % (INT_POWERS,),
         'lengths': 'str/bin/ext/array/map of every length in %s, each with every legal header width; str/bin/ext payloads of %s bytes' % (lens, BIG_PAYLOADS),
+        'declared_lengths': 'str/bin/ext/array/map headers of every width declaring 0x7f/0x80/0xff, 0x7fff/0x8000/0xffff, 0x7fffffff/0x80000000/0x80000001/0xc0000000/0xffffffff items followed by 0, 1, 3 or 40 of them, alone and inside an array: must raise InsufficientData',
         'first_bytes': 'all 256 first bytes (0xc1 reserved: skipped), each alone and nested in array/map',
         'cut_points': 'every proper prefix for encodings <= 600 bytes; first/last 40 cuts + ~%d strided cuts for longer ones' % run.pick(24, 400),
         'special_strings': 'strings/bytes/ext whose first or last characters are special to some codec: %r' % (SPECIAL_STRINGS,),
@@ -502,6 +550,15 @@ def replay(run, path):
             m.prefixes(buf, 'replay:' + c.get('tag', ''))
         elif c.get('kind') == 'refuse':
             m.refused(int(c['int']))
+        elif c.get('kind') == 'declared':
+            buf = bytes.fromhex(c['hex'])
+            try:
+                r = m.um.loads(buf)
+                part.violation('prefix-accepted', 'replay: returned %s' % describe(r), c)
+            except m.um.InsufficientDataException:
+                pass
+            except Exception as e:
+                part.violation('prefix-wrong-exception', 'replay: raised %r' % e, c)
         elif c.get('kind') == 'len':
             run.merge(work_len(c['args']))
         else:
